@@ -567,9 +567,12 @@ impl<TokenIter: Iterator<Item = Result<Token>>> Parser<TokenIter> {
                                         .into()
                                 }
                                 keyword => {
-                                    if let Some(transformer) =
-                                        syntax_env.get(&first.expect_symbol()?)
-                                    {
+                                    // the transformer is copied out of the table: the table must not stay borrowed
+                                    // while the expansion is transformed (it may itself contain a define-syntax)
+                                    let transformer = syntax_env
+                                        .get(&first.expect_symbol()?)
+                                        .map(|transformer| transformer.clone());
+                                    if let Some(transformer) = transformer {
                                         let remained = DatumBody::Pair(pair).locate(location);
                                         let expanded_datum =
                                             transformer.transform(keyword, remained)?;
